@@ -679,6 +679,13 @@ PROPS["C13"] = {
 
 
 # ---- C14 ---------------------------------------------------------------------------------------------------
+C14_PAT_POOL = ["(?i)^x-", "^my", "(?x) ^zz- # trailing comment", "^ion-", "(?i:^k-)btn", "el$", "(?U)^a+$", "(?s)^q.r$", "^p-(?i)pan", "^my btn", "(?m)^w$", "^X-|Y$", "(?-u:^b)",
+                "[A-Z]{4}"]
+C14_TAG_POOL = ["MyButton", "Mybtn", "mybtn", "my-btn", "X-Foo", "x-foo", "Ion-Icon", "ion-icon", "ZZ-top", "zz-top", "K-BTN", "k-btn", "PanEL", "panel", "AAA", "aaa", "QxR", "P-Pan",
+                "p-pan", "W", "x-Y", "Unk", "BBBB", "Btn", "comment"]
+C14_TAG_SHAPES = ["<T class={cls}>{x}</T>", "<T v-model={val}>{x}{y}</T>", "<T id=\"a\">{f()}</T>"]
+
+
 def c14_cases(tier, seed):
     r = gen.Rng(seed)
     unit = []
@@ -741,7 +748,30 @@ def c14_cases(tier, seed):
             b = {"id": sid + ":" + key, "src": src, "tsx": tsx, "opts": ob}
             run.append(b)
             pairs.append({"id": sid + "/" + key, "mode": "same", "a": a["id"], "b": b["id"], "requires_not": feat})
-    return unit, run, {"rule": "unit: serde_json::from_str::<Options> exactly as plugin/src/lib.rs does, vs. the Lean parseOptions, on %d JSON texts (3^5 presence/value combinations of the boolean keys x pragma absent/null/name x pattern lists incl. invalid regexes [sampled 1/4 in quick beyond the first], key order varied, + wrong types, null, arrays, unknown/duplicate keys); pairs: every fixture and %d generated modules under a base option set and with each of transformOn/mergeProps/enableObjectSlots/resolveType/customElementPatterns flipped; a pair is judged (outputs must be identical) when the module does not use the governed feature (conservative syntactic classification of the parsed input)" % (len(unit), len(srcs)),
+    # pattern LISTS: every ordered pair (and sampled triples) over a pool of patterns with inline flags ((?i), (?x), (?s), (?U), (?m), scoped
+    # groups, flags set in the middle), top-level alternations and classes; the module holds every tag of a pool of spellings (case variants,
+    # hyphenated, capitalised) that NO pattern of the list matches - asked of the real regex crate, one pattern at a time, by a probe run
+    lists = [[p] for p in C14_PAT_POOL] + [[p, q] for p in C14_PAT_POOL for q in C14_PAT_POOL if p != q]
+    trip = [[p, q, s] for p in C14_PAT_POOL for q in C14_PAT_POOL for s in C14_PAT_POOL if len({p, q, s}) == 3]
+    lists += [t for i, t in enumerate(trip) if i % (29 if tier == "quick" else 3) == 0]
+    all_tags_src = gen.PRELUDE + "".join("const p%d = <%s/>;\n" % (i, t) for i, t in enumerate(C14_TAG_POOL))
+    probes = runlib.run_harness([{"id": "probe%d" % i, "src": all_tags_src, "tsx": False, "opts": {"customElementPatterns": L}} for i, L in enumerate(lists)], mode="run")
+    n_lists = 0
+    for li, (L, pr) in enumerate(zip(lists, probes)):
+        if "patmatch_ident" not in pr:
+            continue
+        free = [t for t in C14_TAG_POOL if t not in pr["patmatch_ident"]]
+        if not free:
+            continue
+        n_lists += 1
+        shape = C14_TAG_SHAPES[li % len(C14_TAG_SHAPES)]
+        src = gen.PRELUDE + "".join("const t%d = %s;\n" % (i, shape.replace("T", t)) for i, t in enumerate(free))
+        base = {k: r.chance(0.5) for k in ("transformOn", "optimize", "mergeProps", "enableObjectSlots")}
+        a = {"id": "pl%d:base" % li, "src": src, "tsx": False, "opts": base}
+        b = {"id": "pl%d:pats" % li, "src": src, "tsx": False, "opts": dict(base, customElementPatterns=L)}
+        run += [a, b]
+        pairs.append({"id": "pl%d/customElementPatterns" % li, "mode": "same", "a": a["id"], "b": b["id"], "requires_not": "pattern-match"})
+    return unit, run, {"rule": "pattern lists: %d lists (singles, ALL ordered pairs and sampled triples over 14 patterns with inline flags, scoped flags, verbose mode, top-level alternation) against a module of the tag spellings no pattern of the list matches (real regex crate, per pattern), with and without the list; unit: serde_json::from_str::<Options> exactly as plugin/src/lib.rs does, vs. the Lean parseOptions, on %d JSON texts (3^5 presence/value combinations of the boolean keys x pragma absent/null/name x pattern lists incl. invalid regexes [sampled 1/4 in quick beyond the first], key order varied, + wrong types, null, arrays, unknown/duplicate keys); pairs: every fixture and %d generated modules under a base option set and with each of transformOn/mergeProps/enableObjectSlots/resolveType/customElementPatterns flipped; a pair is judged (outputs must be identical) when the module does not use the governed feature (conservative syntactic classification of the parsed input)" % (n_lists, len(unit), len(srcs)),
                       "pairs": pairs, "histogram": dict(hist.most_common(30))}
 
 
@@ -900,6 +930,16 @@ C09_NEIGHBOURS = ["const double = (x) => x * 2;", "list.map((i) => i + 1);", "co
                   "const nested = () => () => () => 3;", "label: for (const i of list) { out.push(() => i); }", "const t2 = cond ? (a) => a : (b) => ({ b });"]
 
 
+C09_LIST_TEMP = ["const h = <Comp>{f()}</Comp>;", "x1 = init(); x1 = <Comp>{x1}</Comp>;", "x2 = <Foo>{x2}</Foo>; out.push(<Comp>{obj.render()}</Comp>, <Bar>{g()}</Bar>);"]
+C09_LIST_STMTS = ['"use strict";', "'marker';", '"use client"; "use strict";', '("use strict");', "`use strict`;", "42;", ";", "debugger;", "function hoisted() { 'use strict'; return 1; }",
+                  "var hv = 'use strict';", "lbl: 'labelled';", "class CD { static { 'in static'; } }", "{ 'in block'; }", "'a' + 'b';", "void 'v';", "if (x) 'then'; else 'else';"]
+C09_LIST_ARRANGE = ["ST", "TS", "pST", "pTS", "SpT", "pSqTR", "SRT", "TpSq"]
+C09_LIST_SCOPES = ["function body1() {\n%s\n}", "%s", "const arrow2 = (a) => {\n%s\n};", "{\n%s\n}", "switch (k) { case 1:\n%s\nbreak; default:\n'in default';\n}", "class M5 { m() {\n%s\n} }",
+                   "class S6 { static {\n%s\n} }", "try {\n%s\n} catch (e) { 'in catch'; } finally { 'in finally'; }", "for (const it of list) {\n%s\n}", "namespace N9 {\n%s\n}",
+                   "const o10 = { get g() {\n%s\nreturn 1; }, set g(v) { 'in setter'; } };", "export default async function* () {\n%s\n}",
+                   "function outer12() { 'outer'; const inner = function () {\n%s\n}; 'after inner'; }", "if (y) {\n%s\n} else { 'in else'; }"]
+
+
 def c09_cases(tier, seed):
     r = gen.Rng(seed)
     run = corpus_cases("C09")
@@ -942,12 +982,27 @@ def c09_cases(tier, seed):
                     n_tmp += 1
                     body = (tj + "\n" + other) if order == 0 else (other + "\n" + tj)
                     run.append({"id": "tmp%d" % n_tmp, "src": gen.PRELUDE + (scope % body) + "\n", "tsx": False, "opts": {"optimize": bool(n_tmp % 2)}})
+    # statement lists that RECEIVE a temporary, with every kind of JSX-free statement (directive-like string statements, other literal
+    # statements, empty / debugger statements, hoisted declarations, labels) at every position relative to the JSX statement
+    n_pos = 0
+    for ti, tj in enumerate(C09_LIST_TEMP):
+        for pi, odd in enumerate(C09_LIST_STMTS):
+            for ai, arr in enumerate(C09_LIST_ARRANGE):
+                for sci, scope in enumerate(C09_LIST_SCOPES):
+                    n_pos += 1
+                    if tier == "quick" and sci and (n_pos + sci) % 4:
+                        continue
+                    odd2 = C09_LIST_STMTS[(pi * 5 + ai + 1) % len(C09_LIST_STMTS)]
+                    body = "\n".join({"S": odd, "R": odd2, "T": tj, "p": "before();", "q": "after(val);"}[k] for k in arr)
+                    ts = "namespace" in scope
+                    o = [{}, {"optimize": True, "enableObjectSlots": False}, {"transformOn": True, "mergeProps": False}][(n_pos + ti) % 3]
+                    run.append({"id": "pos%d" % n_pos, "src": gen.PRELUDE + "let x1, x2;\n" + scope.replace("%s", body) + "\n", "tsx": ts, "opts": o})
     # generated JSX-free modules
     for i in range(budget(tier, 300, 8000)):
         g = gen.Gen(r, {"jsx_in_expr": 0})
         parts = [gen.PRELUDE] + [r.pick(SURROUND) % g.expr(0, allow_jsx=False) for _ in range(1 + r.below(4))]
         run.append({"id": "f%d" % i, "src": "\n".join(parts) + "\n", "tsx": False, "opts": std_opts(r)})
-    return [], run, {"rule": "JSX-free corpus of %d real files on disk (the 81 fixture outputs, the repo's wasm.test.ts, SWC's runtime helper modules and stateright's UI script from the cargo registry) under 4 option sets; fixtures; %d modules with JSX embedded in try/catch, labelled blocks, switch, classes with fields/accessors/static blocks, object methods, generators, destructuring, default parameters, optional chaining, TS interfaces/enums/namespaces/generics; %d modules with resolveType on in which a parameter, inner function, inner const, class member, loop or catch binding, object method or another module's export is merely NAMED defineComponent (x 5 import situations x 3 typed setup functions); 4 JSX statements that leave a temporary pending x 9 JSX-free neighbours (concise arrows in every position) x 5 scopes x both orders; generated JSX-free modules; and EVERY output of the first phase is fed back as input (idempotence)" % (len(corpus), n, n_rt),
+    return [], run, {"rule": "JSX-free corpus of %d real files on disk (the 81 fixture outputs, the repo's wasm.test.ts, SWC's runtime helper modules and stateright's UI script from the cargo registry) under 4 option sets; fixtures; %d modules with JSX embedded in try/catch, labelled blocks, switch, classes with fields/accessors/static blocks, object methods, generators, destructuring, default parameters, optional chaining, TS interfaces/enums/namespaces/generics; %d modules with resolveType on in which a parameter, inner function, inner const, class member, loop or catch binding, object method or another module's export is merely NAMED defineComponent (x 5 import situations x 3 typed setup functions); 4 JSX statements that leave a temporary pending x 9 JSX-free neighbours (concise arrows in every position) x 5 scopes x both orders; 3 statements needing `let _slot` / a captured copy x 16 JSX-free statement kinds (directive-like string statements, other literal statements, empty, debugger, hoisted declarations, labels, nested lists with their own strings) x 8 arrangements (before, after, between, twice) x 14 kinds of statement list (function, arrow, block, case, method, static block, try, loop, namespace, accessor, generator, nested function, if) [lists other than the function body sampled 1/4 in quick]; generated JSX-free modules; and EVERY output of the first phase is fed back as input (idempotence)" % (len(corpus), n, n_rt),
                      "histogram": dict(hist.most_common(30))}
 
 
@@ -1038,9 +1093,75 @@ def malformed_stream(tier, r):
     return out
 
 
+# JSX beneath every node kind the visitor has a HOOK for (variable declarator, call, arrow, statement list), in every branch the hook's
+# guards distinguish (binding = identifier / object / array / nested pattern / with defaults / rest; initializer = element, call,
+# defineComponent call, conditional, none; declaration kind; loop heads; several declarators), under every option set
+HOOK_BINDINGS = ["n", "{ a }", "{ a, b }", "{ a = @ }", "{ a: { b = @ } }", "{ a: [b = @] = [] }", "[a]", "[a, b]", "[a = @]", "[, a = @, ...rest]", "{ a, ...rest }",
+                 "{ [k]: a = @ }", "[{ a = @ }]"]
+HOOK_INITS = ["@", "[@, @]", "{ a: @ }", "use(() => @)", "use(@)", "defineComponent(() => () => @)", "defineComponent({ render() { return @; } })",
+              "defineComponent((props: { m: string }) => () => @)", "cond ? @ : null", "(0, @)", "await @", "slots"]
+HOOK_JSX = ["<A/>", "<h1>title</h1>", "<Comp v-show={x}>{val}</Comp>", "<><i/>t</>", "<div a=<b/>>{f()}</div>"]
+HOOK_SCOPES = ["%s", "function scope1() {\n%s\n}", "export default defineComponent(() => {\n%s\nreturn () => null;\n});", "const arrow1 = async () => {\n%s\n};",
+               "class S4 { m() {\n%s\n} static {\n%s\n} }", "if (x) {\n%s\n}", "namespace N2 {\n%s\n}"]
+HOOK_OPTS = [{}, {"resolveType": True}, {"resolveType": True, "optimize": True, "transformOn": True}, {"resolveType": True, "mergeProps": False, "enableObjectSlots": False},
+             {"resolveType": False, "optimize": True}, {"resolveType": True, "pragma": "h"}, {"resolveType": True, "customElementPatterns": ["^A$"]}]
+
+
+def hook_shape_cases(tier, prefix="hk"):
+    out = []
+    n = 0
+    def jsx_at(k):
+        return HOOK_JSX[k % len(HOOK_JSX)]
+    def fill(t, k):
+        i = [k]
+        parts = t.split("@")
+        s = parts[0]
+        for p in parts[1:]:
+            s += jsx_at(i[0]) + p
+            i[0] += 1
+        return s
+    stmts = []
+    for bi, b in enumerate(HOOK_BINDINGS):
+        for ii, init in enumerate(HOOK_INITS):
+            if "@" not in b and "@" not in init:
+                continue
+            k = bi * 5 + ii
+            decl = ["const", "let", "var"][k % 3]
+            stmts.append("%s %s = %s;" % (decl, fill(b, k), fill(init, k + 1)))
+    for bi, b in enumerate(HOOK_BINDINGS):
+        # loop heads, several declarators in one declaration, declarations without initializer, exported declarations, catch / parameter patterns
+        stmts.append("for (const %s of [%s]) { out.push(a); }" % (fill(b, bi), jsx_at(bi + 2)))
+        stmts.append("for (let %s = %s, q = %s; ;) { break; }" % (fill(b, bi), fill("[@]", bi + 1), jsx_at(bi + 3)))
+        stmts.append("const first%d = %s, %s = %s, last%d = %s;" % (bi, jsx_at(bi), fill(b, bi + 1), fill("{ a: @ }", bi + 2), bi, jsx_at(bi + 3)))
+        stmts.append("export const %s = %s;" % (fill(b, bi), jsx_at(bi + 1)))
+        stmts.append("function pf%d(%s = %s) { return a; }" % (bi, fill(b, bi), jsx_at(bi + 1)))
+        stmts.append("const pa%d = (%s) => %s;" % (bi, fill(b, bi) if b != "n" else "n = " + jsx_at(bi), jsx_at(bi + 4)))
+    for si, st in enumerate(stmts):
+        for sc_i, scope in enumerate(HOOK_SCOPES):
+            if st.startswith("export") and sc_i:
+                continue
+            if "await" in st and sc_i not in (0, 3):
+                continue
+            for oi, o in enumerate(HOOK_OPTS):
+                # quick: every statement at module level under every option set; other scopes x option sets sampled
+                if tier == "quick" and sc_i and (si + sc_i + oi) % 9:
+                    continue
+                if tier == "search" and sc_i and (si + sc_i + oi) % 3:
+                    continue
+                n += 1
+                ts = ("props:" in st) or ("namespace" in scope) or bool(n % 2)
+                if "namespace" in scope and "await" in st:
+                    continue
+                body = scope.replace("%s", st)
+                src = "import { defineComponent } from 'vue';\n" + gen.PRELUDE + body + "\n"
+                out.append({"id": "%s%d" % (prefix, n), "src": src, "tsx": ts, "opts": dict(o)})
+    return out
+
+
 def c07_cases(tier, seed):
     r = gen.Rng(seed)
     run = corpus_cases("C07") + fixture_cases()
+    run += hook_shape_cases(tier)
     for i, c in enumerate(malformed_stream(tier, r)):
         o = c.get("opts") or {k: r.chance(0.5) for k in ("transformOn", "optimize", "mergeProps", "enableObjectSlots")}
         if "resolveType" not in o and r.chance(0.1):
@@ -1051,7 +1172,19 @@ def c07_cases(tier, seed):
     prof["attr_values"] = {"string": 4, "none": 3, "expr": 6, "const": 2, "string-ws": 1, "jsx": 2, "empty": 0}
     mods, hist = gen_modules(r, budget(tier, 1500, 40000), prof, std_opts)
     run += mods
-    return [], run, {"rule": "fixtures + the malformed-usage stream (56 unusual attribute forms: element/fragment as attribute value, valueless directives, array-form directives with holes/spreads/empty arrays, non-identifier modifiers and arguments, directive values of every attribute-value kind; x 14 tag forms incl. namespaced and this-member tags x 15 child forms x 9 pragma comments, attribute pairs sampled, nesting depth up to 200, 13 cyclic type declarations x 7 uses) + %d generated modules with JSX attribute values and namespaced/this tags, under random option sets" % len(mods),
+    # every syntactic context incl. binding patterns, loop heads and multi-declarator declarations; resolveType on for half of them
+    prof2 = dict(prof)
+    prof2["contexts"] = {"expr-stmt": 1, "const": 2, "fn-body": 1, "arrow-expr": 1, "arrow-block": 1, "assign": 1, "nested-block": 1, "class-method": 1, "export-default": 1,
+                         "loop": 1, "class-field": 2, "default-param": 2, "destructure": 6, "loop-head": 3, "multi-decl": 2}
+    def o07(rr):
+        o = std_opts(rr)
+        if rr.chance(0.5):
+            o["resolveType"] = True
+        return o
+    mods2, hist2 = gen_modules(r, budget(tier, 500, 12000), prof2, o07, prefix="d")
+    run += mods2
+    hist.update(hist2)
+    return [], run, {"rule": "fixtures + JSX beneath every hooked node kind (13 binding patterns x 12 initializers, loop heads, multi-declarator declarations, exported declarations, parameter patterns; x 7 scopes x 7 option sets with resolveType on and off, .jsx and .tsx) + the malformed-usage stream (56 unusual attribute forms: element/fragment as attribute value, valueless directives, array-form directives with holes/spreads/empty arrays, non-identifier modifiers and arguments, directive values of every attribute-value kind; x 14 tag forms incl. namespaced and this-member tags x 15 child forms x 9 pragma comments, attribute pairs sampled, nesting depth up to 200, 13 cyclic type declarations x 7 uses) + %d generated modules with JSX attribute values and namespaced/this tags, under random option sets" % len(mods),
                      "histogram": dict(hist.most_common(30))}
 
 
